@@ -26,9 +26,19 @@ import (
 // the alphabet: texts and the root field that reveals which text was executed
 // the last two texts differ only in the case of a letter inside a string literal: they have different
 // hashes and must never stand in for each other (whatever a cache does to its keys)
-var texts = []string{"{ s }", "{ i }", "mutation { m3 }", "{ nope }", `{ echo(s: "Alice") }`, `{ echo(s: "alice") }`}
-var reveals = []string{"s", "i", "m3", "", "echo", "echo"}
-var revealArg = []string{"", "", "", "", "Alice", "alice"}
+// longPad: more than 1 KiB of selections that run no resolver; the last two texts are longer than
+// that, share everything but their tail and have different hashes (whatever a cache does to long keys)
+var longPad = func() string {
+	var sb strings.Builder
+	for i := 0; sb.Len() < 1200; i++ {
+		fmt.Fprintf(&sb, "t%d: __typename ", i)
+	}
+	return sb.String()
+}()
+
+var texts = []string{"{ s }", "{ i }", "mutation { m3 }", "{ nope }", `{ echo(s: "Alice") }`, `{ echo(s: "alice") }`, "{ " + longPad + "s }", "{ " + longPad + "i }"}
+var reveals = []string{"s", "i", "m3", "", "echo", "echo", "s", "i"}
+var revealArg = []string{"", "", "", "", "Alice", "alice", "", ""}
 
 func hashOf(t string) string {
 	b := sha256.Sum256([]byte(t))
